@@ -161,6 +161,17 @@ def passive(world, sim):
             f"res={b('residual' in sim.data.keys())} tol={b(tol)}")
 
 
+def snapshot(world, sim):
+    """Bytes of everything a copy could share with its original."""
+    out = [getattr(sim.model, key).tobytes() for key in world.base]
+    out += [sim.data[name].data.tobytes() for name in sorted(sim.data.keys())]
+    for (s_, f_) in world.pairs:
+        e_ = sim._dict_get('efield', s_, f_)
+        out.append(None if e_ is None else e_.field.tobytes())
+    out.append(repr(sorted(sim.solver_opts.items())))
+    return out
+
+
 def copy_sim(world, sim, what, how, tag):
     emg3d = world.emg3d
     if how == 'copy':
@@ -219,6 +230,30 @@ def run_sequence(ctx, world, rng, k):
                     how = str(rng.choice(['copy', 'dict', 'h5', 'npz', 'json']))
                     hows.append(how)
                     originals.append((sim, passive(world, sim)))
+                    # independence: whatever is done to the arrays of a copy
+                    # (a throw-away one) leaves the original as it is
+                    c2 = copy_sim(world, sim, arg, how, f'{k}_{i}x')
+                    snap = snapshot(world, sim)
+                    for key in world.base:
+                        getattr(c2.model, key)[...] *= 1.25
+                    for name in list(c2.data.keys()):
+                        c2.data[name].data[...] = 7.0
+                    for (s_, f_) in world.pairs:
+                        e_ = c2._dict_get('efield', s_, f_)
+                        if e_ is not None:
+                            e_.field[...] = 0.0
+                    if isinstance(c2.solver_opts, dict):
+                        c2.solver_opts['maxit'] = 1
+                    if snapshot(world, sim) != snap:
+                        ctx.violation(
+                            'original-changed-by-copy',
+                            f'history {ops[:i+1]} (copy via {how}): editing '
+                            f'the arrays / options of the copy changed the '
+                            f'original simulation',
+                            {'ops': ops[:i+1], 'how': how})
+                        ops = ops[:i+1]
+                        real.append('original changed')
+                        break
                     sim = copy_sim(world, sim, arg, how, f'{k}_{i}')
                 elif name == 'update':
                     ver += 1
